@@ -191,11 +191,107 @@ def gen_identity(rng, which):
         l = b.op('movedim', [x], src if rng.chance(.5) else src - len(s), dst)
         r = b.op('transpose', [x], src, dst)
         return finish(b, l, r, rng)
+    if which in ('seq', 'neuronmod'):
+        # module level: the composition is the program (run on model and implementation); the fused side is the real
+        # nn.Sequential / nn.Neuron built from the same parameter values, run on the implementation only (impl-side relation)
+        n = rng.randint(1, 3)
+        if which == 'neuronmod':
+            i = rng.randint(1, 4); hb = rng.chance(.6)
+            x, w = b.leaf((n, i), V((n, i))), b.leaf((1, i), V((1, i)))
+            bb = b.leaf((1,), V((1,))) if hb else None
+            r = b.op('linear', [x, w] + ([bb] if hb else []), int(hb))
+            spec = {'kind': 'neuron', 'x': x, 'w': w, 'b': bb, 'in': i}
+        else:
+            d = rng.randint(1, 3)
+            x = b.leaf((n, d), V((n, d)))
+            pool = []
+            for _ in range(rng.randint(1, 3)):
+                kind = rng.pick(['linear', 'linear', 'relu', 'tanh', 'sigmoid'])
+                if kind == 'linear':
+                    hb = rng.chance(.6)
+                    pool.append({'kind': 'linear', 'w': b.leaf((d, d), V((d, d))), 'b': b.leaf((d,), V((d,))) if hb else None})
+                else:
+                    pool.append({'kind': kind})
+            # positions with repetition: the same module OBJECT may sit at several positions (shared activation, tied weights)
+            order = [rng.randrange(len(pool)) for _ in range(rng.randint(0, 5))]
+            cur = x
+            for k in order:
+                m = pool[k]
+                if m['kind'] == 'linear':
+                    cur = b.op('linear', [cur, m['w']] + ([m['b']] if m['b'] is not None else []), int(m['b'] is not None))
+                else:
+                    cur = b.op(m['kind'], [cur])
+            r = cur if order else b.op('clone', [x])
+            spec = {'kind': 'seq', 'x': x, 'pool': pool, 'order': order, 'dict': rng.chance(.3), 'd': d}
+        c = finish(b, r, r, rng)
+        c['module'] = spec
+        c['leaves'] = list(b.leaves)
+        return c
     raise KeyError(which)
 
 
+def _module_side(c, io):
+    """build the real module from the leaf values, run forward / backward with the same upstream gradient, and compare with the
+    composition's results in `io`; returns a difference or None"""
+    sg = common.impl()
+    from synapgrad import nn
+    from collections import OrderedDict
+    spec = c['module']
+    leafdata = {}
+    k = 0
+    for line in c['lines']:
+        t = line.split(' ')
+        if t[1] == 'leaf':
+            leafdata[k] = np.array(common.parse_floats(t[5]), dtype=np.float64).reshape(tuple(common.parse_ints(t[3])))
+            k += 1
+        elif t[1] == 'op':
+            k += 1
+        else:
+            break
+    def par(i): return nn.Parameter(leafdata[i].copy(), requires_grad=True)
+    owners = {}
+    def mk_linear(i_, o_, w, bidx):
+        m = nn.Linear(i_, o_, bias=bidx is not None)
+        m.weight = par(w); owners[w] = m.weight
+        if bidx is not None:
+            m.bias = par(bidx); owners[bidx] = m.bias
+        return m
+    x = sg.Tensor(leafdata[spec['x']].copy(), requires_grad=True); owners[spec['x']] = x
+    if spec['kind'] == 'neuron':
+        m = nn.Neuron(spec['in'], bias=spec['b'] is not None)
+        m.weight = par(spec['w']); owners[spec['w']] = m.weight
+        if spec['b'] is not None:
+            m.bias = par(spec['b']); owners[spec['b']] = m.bias
+        model = m
+    else:
+        d = spec['d']
+        mods = [mk_linear(d, d, p_['w'], p_['b']) if p_['kind'] == 'linear' else {'relu': nn.ReLU, 'tanh': nn.Tanh, 'sigmoid': nn.Sigmoid}[p_['kind']]()
+                for p_ in spec['pool']]
+        seq = [mods[k_] for k_ in spec['order']]
+        model = nn.Sequential(OrderedDict((f'layer{j}', m_) for j, m_ in enumerate(seq))) if spec['dict'] else nn.Sequential(*seq)
+    out = model(x)
+    vline = [j for j, l in enumerate(c['lines']) if l.startswith('t val')][0]
+    if not tprog.close_line(tprog.show_arr(out.data), io[vline], 1e-9):
+        return ('module forward vs composition', tprog.show_arr(out.data)[:200], io[vline][:200])
+    bw = [l for l in c['lines'] if l.startswith('t bw')][0].split(' ')
+    g = np.array(common.parse_floats(bw[4]), dtype=np.float64).reshape(tuple(common.parse_ints(bw[3])))
+    if out.requires_grad:
+        out.backward(sg.Tensor(g))
+    glines = [j for j, l in enumerate(c['lines']) if l.startswith('t grad')][:len(c['leaves'])]
+    for j, lf in zip(glines, c['leaves']):
+        t = owners.get(lf)
+        if t is None: continue          # a pool module that sits at no position
+        got = '-' if t._grad is None else tprog.show_arr(t._grad)
+        want = io[j]
+        if want == '-' and (t._grad is None or not np.any(t._grad)): continue
+        if got == '-' and want != '-' and not np.any(tprog.parse_arr(want)): continue
+        if not tprog.close_line(got, want, 1e-9):
+            return (f'module gradient of leaf {lf} vs composition', got[:200], want[:200])
+    return None
+
+
 IDS = ['ce', 'bcel', 'logsoftmax', 'linear', 'neuron', 'addmm', 'conv2d', 'maxpool', 'avgpool', 'sub', 'div', 'mean', 'stack', 'unbind',
-       'flatten', 'movedim']
+       'flatten', 'movedim', 'seq', 'seq', 'neuronmod']
 
 
 def cases(rng, tier):
@@ -228,6 +324,11 @@ def compare(c, mo, io):
             bad = _pairs_ok(c, out)
             if bad:
                 diffs.append((f'{name}: fused vs composition ' + bad[0][:100], bad[1], bad[2]))
+        if 'module' in c:
+            bad = common.outcome(lambda: _module_side(c, io)) if hasattr(common, 'outcome') else _module_side(c, io)
+            if bad == 'rejected': bad = ('module side', 'runs', 'raised')
+            if bad:
+                diffs.append(bad)
     return diffs[:3]
 
 
@@ -247,6 +348,11 @@ def oracle(c):
     bad = _pairs_ok(c, io)
     if 'rejected' in [o for l, o in zip(c['lines'], io) if l.startswith(('t op', 't sop', 't bw'))]:
         return {'key': {'id': c['id'], 'cls': 'rejected'}, 'case': {k: v for k, v in c.items() if k != 'desc'}, 'what': f"identity {c['id']}: one side raised"}
+    if not bad and 'module' in c:
+        try:
+            bad = _module_side(c, io)
+        except Exception as e:
+            return {'key': {'id': c['id'], 'cls': 'rejected'}, 'case': {k: v for k, v in c.items() if k != 'desc'}, 'what': f"identity {c['id']}: the module raised {type(e).__name__}: {e}"}
     if bad:
         return {'key': {'id': c['id'], 'cls': 'differs'}, 'case': {k: v for k, v in c.items() if k != 'desc'},
                 'what': f"identity {c['id']}: fused form and documented composition differ at {bad[0][:160]}: {bad[1][:120]} vs {bad[2][:120]}"}
